@@ -593,7 +593,7 @@ def build_tasks(tier, rng):
     add_surface(fam_name("stacked", "cube", "cube"), "cube", dict(size=1.0), np.eye(4), 1.0, "cube", dict(size=1.0), C.pose(np.eye(3), [0, 0, 0.9]), 1.0)
 
     # ---- axis-aligned stacking: a body with flat faces resting on another, cube-group rotations of both bodies
-    n_stack = 12 if not thorough else 100
+    n_stack = 12 if not thorough else 80
     for k1, k2 in itertools.product(FLAT, FLAT):
         for rep in range(n_stack):
             s1 = float(rng.choice([0.01, 0.1, 1.0, 1.0, 2.0, 100.0]))
@@ -629,7 +629,7 @@ def build_tasks(tier, rng):
                         k2, p2, C.pose(C.CUBE[rng.integers(24)], t), youngs(rng))
 
     # ---- random relative poses (general rotations of BOTH bodies)
-    n_rnd = 5 if not thorough else 40
+    n_rnd = 5 if not thorough else 30
     for k1, k2 in itertools.product(KINDS, KINDS):
         for rep in range(n_rnd):
             s1 = float(10.0 ** rng.uniform(-2, 2)) if rng.random() < 0.5 else 1.0
@@ -705,7 +705,7 @@ def build_tasks(tier, rng):
                                       k2=k2, p2=p2, T2=T2.tolist(), E2=1.0))
 
     # ---- single tetrahedron pairs
-    n_chunks, per = (16, 400) if not thorough else (64, 3000)
+    n_chunks, per = (16, 400) if not thorough else (64, 2000)
     for fam in ("single_pair_random", "single_pair_face_parallel", "single_pair_lattice"):
         for c in range(n_chunks):
             tasks.append(dict(type="single", family=fam, n=per, seed=int(rng.integers(2 ** 31))))
